@@ -1252,6 +1252,13 @@ impl<'a> TreeGen<'a> {
             self.handles.push(h.clone());
             d.tag_directives.push((h, p));
         }
+        if self.cfg.tags && self.r.chance(1, 10) {
+            // the primary or secondary handle redefined for this document only: `!t` / `!!t` of this
+            // document resolve through it, those of the next document through the defaults again
+            let h = self.r.pick(&["!", "!!"]).to_string();
+            let p = self.r.pick(&["tag:example.com,2000:app/", "!my-", "tag:yaml.org,2002:", "tag:x.y,2024:"]).to_string();
+            d.tag_directives.push((h, p));
+        }
         if self.r.chance(1, 30) {
             d.reserved_directive = true;
         }
